@@ -153,6 +153,19 @@ func main() {
 		os.Exit(2)
 	}
 	start := time.Now()
+	// watchdog: an analysis that does not finish gives no verdict — say so instead of hanging (the engines are
+	// bounded, but a bound that is too generous on some future shape of the code must not block the caller)
+	limit := 20 * time.Minute
+	if *tier == "thorough" {
+		limit = 60 * time.Minute
+	}
+	if v, err := time.ParseDuration(os.Getenv("LFSCHECK_TIMEOUT")); err == nil && v > 0 {
+		limit = v
+	}
+	time.AfterFunc(limit, func() {
+		fmt.Fprintf(os.Stderr, "lfscheck: the analysis of %s did not finish within %s (the check is broken, no verdict)\n", *prop, limit)
+		os.Exit(2)
+	})
 	seed, _ := strconv.ParseInt(os.Getenv("VERIF_SEED"), 10, 64)
 
 	defer func() {
